@@ -318,8 +318,10 @@ func checkC18(p *Prog, r *Report) {
 			return
 		}
 		for _, e := range variadicElems(cc.Common()) {
-			if s, ok := constString(e); ok && "tab_list" == s {
-				self = true
+			for _, x := range valueRoots(e, nil) {
+				if s, ok := constString(x.V); "const" == x.Kind && ok && "tab_list" == s {
+					self = true
+				}
 			}
 		}
 	})
